@@ -119,7 +119,11 @@ def sym(E, p, kf):
             else:
                 step = acc + data[q] if op in ("cumsum", "acc_add") else acc - data[q] if op == "acc_subtract" else acc ^ data[q]
                 acc = z3.If(is_start, data[q], step)
-            conds.append(specs.eqv(res["flat"][q], acc))
+            got_q = res["flat"][q]
+            if z3.is_bv(got_q) and z3.is_bv(acc) and got_q.size() < acc.size():
+                # a result in a narrower type than numpy's: compared by number (it differs wherever the sum does not fit)
+                got_q = (z3.ZeroExt if str(res["dtype"]).startswith("u") else z3.SignExt)(acc.size() - got_q.size(), got_q)
+            conds.append(specs.eqv(got_q, acc))
         data = data_
     elif op == "sort":
         if res["k"] != "ragged" or len(res["flat"]) != S or len(res["lens"]) != R:
